@@ -130,6 +130,8 @@ func checkC18(c *Ctx, r *Report) {
 		r.add("C18.a", "guardedby", "packages-facade:only-glob-matched-files-are-sources", "the glob-matched files are kept as a set and each is a source once", nil, nil, "the glob-matched set (a map keyed by absolute path) was not found in initWithGlobs")
 	}
 	checkStatusCodeClasses(c, r, "C18.d")
+	checkContainerFields(c, r, "C18.a")
+	ruleDecisionInputs(c, r, "C18.c", "core/validators")
 	// every comment line's own position is asked of the file set (a line guessed from its
 	// neighbour's - first+i - is wrong as soon as the group is not one comment per consecutive line)
 	for _, f := range []struct{ field, via string }{{"StartLine", "Pos"}, {"StartCol", "Pos"}, {"EndLine", "End"}, {"EndCol", "End"}} {
